@@ -275,6 +275,15 @@ def load_known(prop):
     return [k for k in json.load(open(p))["findings"] if k["property"] == prop and k["status"] == "known"]
 
 
+def witness_lines(prop):
+    """witness op lines of every recorded finding of this property (known and fixed): replayed first on every run,
+    so a known finding is re-derived (and printed) each time and a fixed one is reported again if it returns"""
+    p = os.path.join(ROOT, "known_findings.json")
+    if not os.path.exists(p):
+        return []
+    return [k["witness"] for k in json.load(open(p))["findings"] if k["property"] == prop and k.get("witness")]
+
+
 class Report:
     def __init__(self, prop, tier, seed):
         self.prop = prop
